@@ -87,7 +87,7 @@ _r3 = {'branches': {'np.max(abs(flux_constraint_coefficient - predicted_flux_con
 module('R3', 'calculate_r3', 'calculate_r3', variants=variants_h(_r3),
        locals_out=('Q', 'predicted_flux_constraint_coefficient'))
 
-module('Shear', 'calculate_r3', 'calculate_shear', cfg={'stop_at': 'DMred = '},
+module('Shear', 'calculate_r3', 'calculate_shear', cfg={'stop_at': ['DMred = ', 'DMred = d_d_varphi[1:, 1:]']},
        locals_out=('eps_scale', 'eta', 'B1c', 'B20', 'Ba1', 'Z31c', 'Z31s', 'X31c', 'X31s', 'Y31s', 'LamTilde'))
 
 module('RSing', 'r_singularity', 'calculate_r_singularity', cfg={'stop_at': 'for jphi in range(nphi)',
